@@ -12,12 +12,15 @@ package hash
 //@      forall(i.(int), implies(0 <= i && i < len(h.keys), inDom(h.ring, h.keys[i]) && len(h.ring[h.keys[i]]) > 0)) &&
 //@      implies(card(h.ring) > 0, len(h.keys) > 0)
 
+// a member's identity on the ring is its FULL representation (lang.Repr, injective on numeric members - see core/lang): no
+// truncation or other many-to-one rewriting, which would merge distinct members
 //@ func repr
-//@   trusted
+//@   property C15
 //@   pure
+//@   ensures result == lang.Repr(node)
 //@   modifies nothing
 //@ func innerRepr
-//@   trusted
+//@   property C15
 //@   pure
 //@   modifies nothing
 
